@@ -118,7 +118,7 @@ def gate(prog, fn, g_bb, b_bb, success=None, unwind=False):
             continue
         from .expr import switch_info
         e, kind, labels, adt = switch_info(prog, fn, s)
-        arms = g.switch_arms_reaching(s, [b_bb])
+        arms = g.switch_arms_reaching(s, [b_bb], avoid=(s,))
         reach = [a for a in arms if a[2]]
         if len(reach) == len(arms):
             continue  # not a gate: all arms reach b
@@ -247,3 +247,24 @@ def cond_variants(prog, fn, bb):
             for t in c['taken']:
                 out.add(str(t))
     return out
+
+
+# ---- decision tables ----------------------------------------------------------------------------
+def table(prog, fn, local=0):
+    """TABLE(F): [(bb, value expr, [conditions])] for every whole assignment of `local` (default:
+    the return place). Conditions are the exact conjunctive part of the path condition (switches
+    on the dominator chain); a disjunctive remainder shows up as a weaker (shorter) conjunction."""
+    out = []
+    for bb, e in local_assignments(prog, fn, local):
+        if fn.blocks[bb].get('cleanup'):
+            continue
+        out.append((bb, e, cond_exprs(prog, fn, bb)))
+    return out
+
+
+def local_by_name(fn, name):
+    return [i for i, l in enumerate(fn.locals) if l.get('name') == name]
+
+
+def describe_table(rows):
+    return [(show(e)[:120], fmt_conds(c)[:300]) for _, e, c in rows]
